@@ -104,6 +104,20 @@ func (l *Log) Leaf(i int) *trillian.LogLeaf {
 	return proto.Clone(l.leaves[i]).(*trillian.LogLeaf)
 }
 
+// TreeRoot returns MTH over the first n sequenced leaves (safe for concurrent use).
+func (l *Log) TreeRoot(n int) [32]byte {
+	l.mu.Lock()
+	defer l.mu.Unlock()
+	return l.tree.Root(n)
+}
+
+// PublishedRoots returns a copy of every root published so far (safe for concurrent use).
+func (l *Log) PublishedRoots() []types.LogRootV1 {
+	l.mu.Lock()
+	defer l.mu.Unlock()
+	return append([]types.LogRootV1(nil), l.Roots...)
+}
+
 // Tree exposes the Merkle tree of sequenced leaves (read-only use).
 func (l *Log) Tree() *mtree.Tree { return &l.tree }
 
